@@ -193,12 +193,18 @@ def judge(case, t):
             break
     wrote = [h for h in t.handlers if h.kind == "w"]
     out = t.out
+    # every variable got an acceptable argument but more arguments follow: the line is an ERROR, and whether the listed variables were
+    # stored before the surplus was noticed is not fixed by the statement (it speaks of the variable whose own text is bad)
+    surplus = expect_fail_at is None and comma and k >= len(c["vars"])
     for j, v in enumerate(c["vars"]):
         if v["type"] not in NUM:
             continue
         init = (v["init"] + bytes(v["size"]))[:v["size"]]
         got = final[(0, j)]
-        if j in stored:
+        if j in stored and surplus:
+            if got not in (stored[j], init):
+                return ("wrong-value", "variable %d (type %d size %d): argument list %r (more arguments than variables) should leave %r or %r, holds %r" % (j, v["type"], v["size"], args, init, stored[j], got))
+        elif j in stored:
             if got != stored[j]:
                 return ("wrong-value", "variable %d (type %d size %d): argument list %r should store %r, holds %r" % (j, v["type"], v["size"], args, stored[j], got))
             cb = [x for x in t.varcbs if x.vi == j and x.kind == "w"]
